@@ -141,8 +141,8 @@ C12_PARTS = [
      "design": {"module": "Import.tla", "invariants": ["Inv_Import"],
                 "consts": {"quick": {"MaxRows": "2", "Fixes": tlc.tla_set(["F11"])},
                            "thorough": {"MaxRows": "3", "Fixes": tlc.tla_set(["F11"])}}},
-     "args": {"quick": {"maxrows": 2, "variants": [["identity", "-1"], ["renamed", "nan"], ["identity", "empty"], ["reindexed", "nan"], ["mixed", "-1"]]},
-              "thorough": {"maxrows": 3, "variants": [["identity", "-1"], ["renamed", "nan"], ["renamed", "empty"], ["reindexed", "-1"], ["mixed", "nan"]]}},
+     "args": {"quick": {"maxrows": 2, "variants": [["identity", "-1"], ["renamed", "nan"], ["identity", "empty"], ["reindexed", "nan"], ["mixed", "-1"], ["bigids", "-1"]]},
+              "thorough": {"maxrows": 3, "variants": [["identity", "-1"], ["renamed", "nan"], ["renamed", "empty"], ["reindexed", "-1"], ["mixed", "nan"], ["bigids", "-1"]]}},
      "trace": {"module": "TraceImport.tla",
                "consts": {"quick": {"MaxRows": "2", "Fixes": tlc.tla_set(["F11"])},
                           "thorough": {"MaxRows": "3", "Fixes": tlc.tla_set(["F11"])}}}},
